@@ -413,7 +413,11 @@ func (e *Exec) sxIndex(env *SpecEnv, n *ast.IndexExpr) SVal {
 	switch t := types.Unalias(x.Typ).Underlying().(type) {
 	case *types.Slice:
 		el := t.Elem()
-		return SVal{T: sel(sel(e.hget(env.heap(), e.elemHeap(el)), "(s_arr "+x.T+")"), fmt.Sprintf("(+ (s_off %s) %s)", x.T, it)), Typ: el}
+		hh := env.heap()
+		if x.Old && env.old != nil {
+			hh = env.old
+		}
+		return SVal{T: e.at(el, sel(e.hget(hh, e.elemHeap(el)), "(s_arr "+x.T+")"), "(s_off "+x.T+")", it), Typ: el}
 	case *types.Array:
 		if x.Ref != "" {
 			return SVal{T: sel(sel(e.hget(env.heap(), e.elemHeap(t.Elem())), x.Ref), it), Typ: t.Elem()}
@@ -719,12 +723,15 @@ func (e *Exec) sxCall(env *SpecEnv, n *ast.CallExpr) SVal {
 		}
 		k := e.mat(env, e.sx(env, n.Args[0]))
 		return SVal{T: sel(e.hget(env.st, env.rng.visited), k), Typ: boolT}
-	case "uf", "ufb", "ufbytes":
+	case "uf", "ufb", "ufbytes", "uf8":
 		lit, ok := n.Args[0].(*ast.BasicLit)
 		if !ok {
 			return e.specErr(env, n, "uf name must be a string literal")
 		}
 		fname := "uf_" + sanitize(strings.Trim(lit.Value, "\""))
+		if strings.HasPrefix(fname, "uf_aead_") || fname == "uf_bxor" || fname == "uf_salsa_ks" {
+			e.cryptoDecls() // the axioms about these functions belong to every unit that mentions them
+		}
 		rest := n.Args[1:]
 		var idx string
 		if name == "ufbytes" {
@@ -748,7 +755,7 @@ func (e *Exec) sxCall(env *SpecEnv, n *ast.CallExpr) SVal {
 			args = append(args, t)
 			sorts = append(sorts, s)
 		}
-		ret := map[string]string{"uf": "Int", "ufb": "Bool", "ufbytes": "(Array Int Int)"}[name]
+		ret := map[string]string{"uf": "Int", "uf8": "Int", "ufb": "Bool", "ufbytes": "(Array Int Int)"}[name]
 		fname += "_" + fmt.Sprint(len(args))
 		e.sc.declFun(fname, sorts, ret)
 		t := app(fname, args...)
@@ -757,6 +764,9 @@ func (e *Exec) sxCall(env *SpecEnv, n *ast.CallExpr) SVal {
 		}
 		if name == "ufb" {
 			return SVal{T: t, Typ: boolT}
+		}
+		if name == "uf8" {
+			return SVal{T: t, Typ: types.Typ[types.Byte]}
 		}
 		return SVal{T: t, Typ: intT}
 	case "ite":
